@@ -94,7 +94,7 @@ class Recorder:
         return other
 
 
-REASONS = {'No resource available': 0}
+REASONS = {'No resource available': -1}
 for _code, _nm in PSTATES.items():
     REASONS[f'process {_nm} event not received in time'] = _code
 
@@ -503,9 +503,27 @@ class Sim:
         if rng.random() < 0.9:
             self.do(('Check',))
 
+    def prologue(self):
+        """ some processes are already running when the history starts (so that stop sequences have work) """
+        rng = self.rng
+        frac = rng.choice([0.3, 0.7, 1.0])
+        for (a, p), pc in self.proc_cf.items():
+            if rng.random() < frac and not self.crashed:
+                targets = rng.sample(pc['insts'], 2 if len(pc['insts']) >= 2 and rng.random() < 0.12 else 1)
+                for i in targets:
+                    self.do(('Event', i, a, p, 'STARTING', True, self.now))
+                    if rng.random() < 0.9 and not self.crashed:
+                        self.do(('Event', i, a, p, 'RUNNING', True, self.now))
+
     def run(self, hostile):
         rng = self.rng
-        self.do(rng.choice([('StartApps',), ('StartApps',), self.user_request()]))
+        if rng.random() < 0.45:
+            self.prologue()
+            if not self.crashed:
+                self.do(rng.choice([('StopApps',), ('StopApp', self.rand_proc()[0]), ('StartApps',),
+                                    ('RestartApp', 0, self.rand_proc()[0]), self.user_request()]))
+        else:
+            self.do(rng.choice([('StartApps',), ('StartApps',), self.user_request()]))
         while len(self.ops) < self.max_ops and not self.crashed:
             self.step += 1
             due = [e for e in self.pending if e[0] <= self.step]
@@ -743,7 +761,7 @@ class SequencerSuite(Suite):
                     crashes[ob[1]] = crashes.get(ob[1], 0) + 1
                 else:
                     for x in ob[1]:
-                        key = x[0] if x[0] != 'forced' else f'forced:{x[3]}:{"noresource" if x[4] == 0 else "timeout"}'
+                        key = x[0] if x[0] != 'forced' else f'forced:{x[3]}:{"noresource" if x[4] == -1 else "timeout"}'
                         outs[key] = outs.get(key, 0) + 1
         return {'op_kinds': kinds, 'history_lengths': lens, 'crashes': crashes, 'outputs': outs,
                 'apps': {str(n): sum(1 for i in inputs if len(i['cf']['apps']) == n) for n in range(1, 5)}}
